@@ -75,6 +75,11 @@ def profiles(thorough):
             {"id": "w3", "keys": ["k5"], "auth": {"k5": 100}, "mode": "stream", "sync": True, "late": False,
              "no_autocommit": True},
             {"id": "w4", "keys": ["k1"], "auth": {"k1": 255}, "mode": "stream", "sync": False, "late": False},
+            # one writer (ErrOnUnauthorized = false) whose frames span the persisted group AND the virtual
+            # channel k1, outranked on both kinds (index/data by w1 and w2, k1 by w4): the persisted pass
+            # refuses its group, the virtual pass must still refuse k1
+            {"id": "w5", "keys": ["k3", "k4", "k1"], "auth": {"k3": 50, "k4": 50, "k1": 50}, "mode": "stream",
+             "sync": True, "late": False, "span": True},
         ],
         "close_after": {"w1": ["w3"]},
         "streamers": ["s1", "s2"], "sleepy_lossy": ["s2"],
@@ -307,6 +312,11 @@ def decorate(script, rnd, mode, p=None):
         mid = [o for o in ops if o["p"] not in st and o["a"] not in ("dbclose", "sclose")]
         for o in sopens:
             o["wait"], o["fence"] = True, False
+        for o in mid:
+            if o["a"] == "write":
+                # the relay is saturated during the stall: each writer's requests follow one another
+                # as fast as its Write calls return
+                o["wait"], o["delay_us"], o["fence"] = False, 0, False
         blank = {"p": "", "ks": [], "m": "", "wait": False, "delay_us": 0}
         return sopens + [dict(blank, a="stall", fence=False)] + mid + [dict(blank, a="unstall", fence=True)] + later + dbc
     if p:
@@ -380,6 +390,18 @@ def forced_scripts(p):
             op("ssub", s1, sub, fence=True), op("write", w),
             op("sclose", s1, m="graceful", fence=True), op("sclose", s2, m="graceful"),
         ] + [op("wclose", x) for x in order] + [op("dbclose", "db", fence=True)])
+    # a writer whose frames span a persisted group and a virtual channel, outranked on both, writes
+    # while one streamer listens to the virtual channel and one to the persisted data channel
+    kind = {x["id"]: x["kind"] for x in p["keys"]}
+    for sp in [x for x in W if x.get("span")]:
+        vk = [x for x in sp["keys"] if kind[x] == "virtual"]
+        dk = [x for x in sp["keys"] if kind[x] == "data"]
+        if vk and dk:
+            out.append([op("sopen", s1, vk), op("sopen", s2, dk + [x for x in sp["keys"] if kind[x] == "index"]),
+                        op("write", sp["id"]), op("write", sp["id"]), op("write", w),
+                        op("ssub", s2, vk + dk, fence=True), op("write", sp["id"]),
+                        op("sclose", s1, m="graceful", fence=True), op("sclose", s2, m="cancel")] +
+                       [op("wclose", x) for x in order] + [op("dbclose", "db", fence=True)])
     return out
 
 
@@ -872,7 +894,7 @@ def run(ctx):
     cov = {"mech": {}, "max_call_us": {}, "tv_states": 0, "tv_transitions": 0, "accepted": 0, "by_config": {},
            "samples": []}
     n = 500 if thorough else 120
-    n_mixed = 150 if thorough else 20
+    n_mixed = 150 if thorough else 40
     for p in profiles(thorough):
         scripts = gen_scripts(ctx, p, n, "g_" + p["name"])
         if len(scripts) < n // 3:
